@@ -7,6 +7,17 @@ ROOT = os.path.dirname(os.path.dirname(os.path.abspath(__file__)))
 
 # id -> (technique, level text, level note, design ref)
 CHECKS = {
+    "C01": ("Hypothesis-generated builder programs x states x run plans; oracle = three-way exact comparison (program-order reference executor / NumpyInterpreter / generated Python class)",
+            "Typed, def-before-use builder programs (every statement kind, loops incl. zero-trip, if/else nesting, early exits, user functions, exact built-ins, 1-3 phases) are "
+            "executed by an independent exact reference executor, by the interpreter and by the emitted class; events, persistent state and next phase after every step and the kind "
+            "of raised error must be equal. Sampled; exact (dyadic) arithmetic so equality is exact and guards cannot flip.",
+            "Trusts vlib/refexec.py as the meaning of 'the builder calls one after another' (arrays follow Python reference semantics for plain copies); runs are compared up to the first step that leaves the exact domain.",
+            "DESIGN.md 2/C01"),
+    "C10": ("exhaustive enumeration of small methods (graphs x dangling/cross-phase edges x switch targets x flag patterns) + Hypothesis random methods; oracle = independent well-formedness checker",
+            "verify_code is compared with an independent checker on every digraph on <=4 statements (thorough; <=3 quick), every dependency-set assignment over own/dangling/other-phase ids on <=3 statements, "
+            "and switch/flag variants; accepted methods are pushed through the interpreter and both generators; a 20 s alarm per case decides 'never hangs'. Exhaustive below the bound, sampled above.",
+            "Ids unique within a phase; trivial statements so only dependency resolution can fail downstream; liveness only as a bound.",
+            "DESIGN.md 2/C10"),
     "C06": ("exhaustive enumeration of small trees + Hypothesis random trees; oracle = guarded-trace equality under all flag valuations",
             "Every tree with <=5 (quick) / <=7 (thorough) nodes over {Block, IfThen, IfThenElse, leaf, Null} x 6 condition forms is "
             "simplified and compared with the original by an independent trace walker under all valuations, plus random larger trees "
